@@ -274,3 +274,36 @@ CHECKS["C17"] = {
     ),
     "note": "Tag sets as concrete values along long histories are not decided beyond add/remove symmetry." + TRUSTED,
 }
+
+CHECKS["C09"] = {
+    "technique": "obligation-tracking abstract interpretation of the chunk loop + table composition + event-field completeness",
+    "text": (
+        "ExtendedToStreamDecorator._convert is interpreted abstractly with every value yielded by iter_bytes() an "
+        "obligation: each chunk is forwarded exactly once before it is overwritten (order preserved), per detail "
+        "exactly one event carries eof=True and it is that detail's last file event on every path including the "
+        "zero-chunk path, and the reason file and exactly one final status follow all file events; the loops are "
+        "closed by the fixed point, so this holds for any number of details and chunks -- exactly the off-by-one class "
+        "the single-chunk tests cannot see. The method->status and status->method tables compose to the documented "
+        "map (error -> fail -> failure), dispatch tables are exhaustive, every event carries test_id/timestamp (file "
+        "events also name, bytes, repr(content_type); the final one the current tags), and PlaceHolder.run / "
+        "StreamToExtendedDecorator replay each record once in protocol order with id, mapped outcome, details, tags "
+        "and timestamps."
+    ),
+    "note": "Identical bytes, MIME render/re-parse and non-ASCII names are runtime value properties and are not decided." + TRUSTED,
+}
+
+CHECKS["C10"] = {
+    "technique": "removal-accessor / dominance rules on the CFG + typestate call counters + bucket table agreement",
+    "text": (
+        "Static accounting rules for _StreamToTestRecord, _TestRecord, StreamSummary and the consumer wrappers: a "
+        "record reaches on_test only through a removing accessor of the in-progress table, under the final-status "
+        "guard, and stopTestRun drains the table, so no record is reported twice or left behind; events without test "
+        "id return before the table is touched and records are keyed by (test_id, route_code); the record keeps last "
+        "status, latest tags, first/last timestamps and appends chunks in arrival order to one content per name; "
+        "testsRun is incremented exactly once for every non-'exists' record, followed by exactly one bucket handler "
+        "selected by status, each appending to the documented list, with wasSuccessful reading the fail/incomplete "
+        "list; dispatch tables are exhaustive; the wrappers forward every call to their hook exactly once with all "
+        "arguments. These per-event invariants hold for every event sequence."
+    ),
+    "note": "Chunk concatenation and timestamps as values are not decided beyond the structural facts above." + TRUSTED,
+}
